@@ -133,7 +133,7 @@ func (g *Grammar) GoSource(prefix string) string {
 func (g *Grammar) GoBuildFunc(prefix, fname string, unions []Union) string {
 	var sb strings.Builder
 	fmt.Fprintf(&sb, "func %s() (string, error) {\n", fname)
-	fmt.Fprintf(&sb, "\tp, err := participle.Build[%s](participle.Lexer(gram.ProfileDef(%q)), participle.UseLookahead(%d),\n", RootName(prefix), g.Profile, g.Lookahead)
+	fmt.Fprintf(&sb, "\tp, err := participle.Build[%s](participle.Lexer(gram.ProfileDef(%q)), participle.UseLookahead(%d), participle.ParseTypeWith(gram.ParsePI),\n", RootName(prefix), g.Profile, g.Lookahead)
 	if len(g.Elide) > 0 {
 		fmt.Fprintf(&sb, "\t\tparticiple.Elide(%s),\n", quoteList(g.Elide))
 	}
